@@ -244,7 +244,60 @@ func c05FileEval(cs *core.Case) (bool, string, string) {
 	return true, "", ""
 }
 
+// c05SeekEval: In = prefix || payload, Ints[0] = len(prefix), Ints[1] = reader
+// kind (0 bytes.Reader, 1 strings.Reader, 2 os.File). The caller has already
+// consumed the prefix from a seekable reader; DetectReader must classify what
+// the reader still delivers (the payload) and leave the reader right behind the
+// header it took.
+func c05SeekEval(cs *core.Case) (bool, string, string) {
+	k := cs.Ints[0]
+	payload := cs.In[k:]
+	want := detect(payload, cs.Limit)
+	setLimit(cs.Limit)
+	var r io.ReadSeeker
+	switch cs.Ints[1] {
+	case 0:
+		r = bytes.NewReader(cs.In)
+	case 1:
+		r = strings.NewReader(string(cs.In))
+	default:
+		if c05Tmp == "" {
+			c05Tmp, _ = os.MkdirTemp("", "verif-c05-")
+		}
+		p := filepath.Join(c05Tmp, "seek")
+		if os.WriteFile(p, cs.In, 0o600) != nil {
+			return true, "skip", ""
+		}
+		f, err := os.Open(p)
+		if err != nil {
+			return true, "skip", ""
+		}
+		defer f.Close()
+		r = f
+	}
+	if _, err := r.Seek(int64(k), io.SeekStart); err != nil {
+		return true, "skip", ""
+	}
+	got, err := mimetype.DetectReader(r)
+	if err != nil {
+		return false, "C05/error-without-fault", fmt.Sprintf("seekable reader at offset %d: DetectReader returned %v", k, err)
+	}
+	if !sameResult(got, want) {
+		return false, "C05/reader-disagrees-with-bytes/seekable-reader-not-at-start", fmt.Sprintf("a seekable reader (kind %d) positioned at offset %d delivers %s; DetectReader reports %s, Detect on the delivered bytes reports %s (limit %d)", cs.Ints[1], k, core.Quote(payload), chainStr(got), chainStr(want), cs.Limit)
+	}
+	pos, _ := r.Seek(0, io.SeekCurrent)
+	wantPos := int64(len(cs.In))
+	if cs.Limit > 0 && int64(k)+int64(cs.Limit) < wantPos {
+		wantPos = int64(k) + int64(cs.Limit)
+	}
+	if pos != wantPos {
+		return false, "C05/consumed-beyond-limit/seekable-reader", fmt.Sprintf("a seekable reader at offset %d, limit %d, %d bytes: after DetectReader its position is %d, expected %d", k, cs.Limit, len(cs.In), pos, wantPos)
+	}
+	return true, "", ""
+}
+
 func c05Setup(c *core.Ctx) {
+	c.Register("c05seek", c05SeekEval)
 	c.Register("c05", c05Eval)
 	c.Register("c05file", c05FileEval)
 }
@@ -431,6 +484,33 @@ func c05Run(c *core.Ctx) {
 			c.Check(fc)
 			wit++
 		}
+	}
+	// K: seekable readers that are not at their start (a container preamble was
+	// read first): every witness <= 4 KiB behind four different preambles
+	{
+		kc := &core.Case{Kind: "c05seek", Ints: []int{0, 0}}
+		pre := [][]byte{[]byte("\x89PNG\r\n\x1a\n"), []byte("PK\x03\x04frame"), []byte("{\"len\":12}\n"), {0, 0, 0, 8}}
+		var nk uint64
+		for _, w := range corpus(c) {
+			if len(w.Data) == 0 || len(w.Data) > 4096 || !c.Next() || c.Expired() {
+				continue
+			}
+			for pi, p := range pre {
+				kc.In = append(append([]byte{}, p...), w.Data...)
+				kc.Ints[0] = len(p)
+				for _, l := range []uint32{0, 3072, 16} {
+					kc.Limit = l
+					kc.Ints[1] = (pi + int(l)) % 3
+					c.R.Evals++
+					c.R.States++
+					c.R.Transitions++
+					nk++
+					c.Check(kc)
+				}
+			}
+		}
+		c.Note("K.seekable-reader-cases", nk)
+		c.SampleCase("K:seekable-reader-not-at-start", kc)
 	}
 	// W2: every witness (<= 4 KiB) at every limit inside it: the reader (default
 	// answers) and Detect agree, whatever field the limit happens to cut
